@@ -165,6 +165,14 @@ def fresh_trace(prop, tier, case):
         return None
 
 
+class CaseTimeout(BaseException):
+    """wall-clock backstop for one case (exact arithmetic can blow up): the case is abandoned and counted, never a verdict"""
+
+
+def _alarm(signum, frame):
+    raise CaseTimeout()
+
+
 def run_one(mod, case, prop, tier, S, allow_trace=True):
     """run one case under the monitors; returns (ctx, internal_error or None)"""
     from . import attach
@@ -181,8 +189,22 @@ def run_one(mod, case, prop, tier, S, allow_trace=True):
     attach.drain_violations()
     err = None
     attach.S.trace = [] if traced else None
+    import signal
+
+    limit = getattr(mod, "CASE_TIMEOUT", {"quick": 150, "thorough": 400})[tier]
+    signal.signal(signal.SIGALRM, _alarm)
+    signal.setitimer(signal.ITIMER_REAL, limit)
     try:
-        mod.run_case(case, ctx)
+        try:
+            mod.run_case(case, ctx)
+        finally:
+            signal.setitimer(signal.ITIMER_REAL, 0)
+    except CaseTimeout:
+        # inconclusive for this case only: what was observed before stays, nothing is concluded from the abandonment
+        ctx.count("case_timeouts")
+        attach.S.depth = 0
+        attach.S.enabled = True
+        traced = False
     except Exception:
         err = traceback.format_exc(limit=8)
     except BaseException as e:  # StepBudgetExceeded escaping a check = the check forgot lib.call: internal
